@@ -20,6 +20,16 @@ def root_of(fn, i):
             return 'this', path[::-1]
         if k == 'DeclRefExpr':
             d = n['decl']
+            if d.get('dk') == 'local' and d.get('isref'):
+                init = local_init(fn, d['id'])
+                if init is not None:
+                    i = init
+                    continue
+            if d.get('dk') == 'param':
+                ids = [p['id'] for p in fn.params]
+                if d.get('id') in ids:
+                    path.append('#%d' % ids.index(d['id']))
+                    return ('param' if d.get('isref') or d.get('tc') == 'p' else 'param-value'), path[::-1]
             path.append(d.get('name', '?'))
             return d.get('dk', 'unknown'), path[::-1]
         if k == 'MemberExpr':
@@ -73,6 +83,18 @@ def root_of(fn, i):
             return 'literal', path[::-1]
         return 'unknown', path[::-1]
     return 'unknown', path[::-1]
+
+
+def local_init(fn, did):
+    c = getattr(fn, '_local_inits', None)
+    if c is None:
+        c = {}
+        for n in fn.all_nodes({'DeclStmt'}):
+            for d in n['decls']:
+                if 'init' in d:
+                    c[d['id']] = d['init']
+        fn._local_inits = c
+    return c.get(did)
 
 
 _alias_cache = {}
